@@ -18,13 +18,16 @@ Fixpoint normv (v : gval) : gval :=
   | VInt _ z => nint z
   | VArr l => VArr (map normv l)
   | VMap m => VMap (isort lkey (map (fun e => (nlabel (fst e), normv (snd e))) m))
+  | VInts l | VOps (Some l) => VArr (map nint l)     (* []int and key.Ops come back as []any of integers *)
+  | VOps None => VNil                                (* a typed nil key.Ops is written as null *)
   | _ => v
   end.
 
 Definition int64ish (z : Z) : bool := (-9223372036854775808 <=? z) && (z <? 18446744073709551616).
 Definition lbl_ok (l : label) : bool := match l with LInt _ z => int64ish z | LStr s => utf8_valid s end.
 
-(* the values header maps carry: null, booleans, integers, byte and text strings, arrays and nested maps of those *)
+(* the values header and key maps carry: null, booleans, integers, byte and text strings, integer slices ([]int, key.Ops),
+   arrays and nested maps of those *)
 Fixpoint hv (v : gval) : bool :=
   match v with
   | VNil | VBool _ | VBytes _ => true
@@ -32,6 +35,8 @@ Fixpoint hv (v : gval) : bool :=
   | VStr s => utf8_valid s
   | VArr l => forallb hv l
   | VMap m => forallb (fun e => lbl_ok (fst e) && hv (snd e)) m
+  | VInts l | VOps (Some l) => forallb int64ish l
+  | VOps None => true
   | _ => false
   end.
 
@@ -41,6 +46,16 @@ Proof.
   unfold int64ish, int_item, nint. intro H. destruct (z <? 0) eqn:E; cbn [parse].
   - replace (MaxI64N <? Z.to_N (-1 - z))%N with false by (unfold MaxI64N; lia). f_equal. f_equal. lia.
   - f_equal. f_equal. lia.
+Qed.
+
+Lemma parse_ints l : forallb int64ish l = true -> parse true (canon (IArr (map int_item l))) = Ok (VArr (map nint l)).
+Proof.
+  intro H. cbn [canon parse]. rewrite map_map.
+  assert (E : parse_elems (parse true) (map (fun z => canon (int_item z)) l) = Ok (map nint l)).
+  { induction l as [|z r IH]; cbn [map parse_elems]; [reflexivity|]. cbn [forallb] in H. apply andb_true_iff in H. destruct H as [Hz Hr].
+    replace (canon (int_item z)) with (int_item z) by (unfold int_item; destruct (z <? 0); reflexivity).
+    rewrite (parse_int z true Hz), (IH Hr). reflexivity. }
+  now rewrite E.
 Qed.
 
 Definition kval (l : label) : gval := match l with LInt _ z => nint z | LStr s => VStr s end.
@@ -148,6 +163,8 @@ Proof.
     + rewrite <- (parse_int z true Hh). unfold int_item. destruct (z <? 0); reflexivity.
     + reflexivity.
     + cbn [parse]. now rewrite Hh.
+    + now apply parse_ints.
+    + destruct l as [l|]; cbn [item_of] in *; inversion Hi; subst; cbn [normv]; [now apply parse_ints|reflexivity].
   - cbn [item_of] in Hi. destruct (opt_all (map item_of l)) as [its|] eqn:E; [|discriminate]. inversion Hi; subst it.
     cbn [canon parse normv]. cbn [kd] in Hk. cbn [hv] in Hh. rewrite forallb_forall in Hk, Hh. rewrite Forall_forall in IH.
     pose proof (opt_all_map_some item_of l its E) as F.
@@ -275,6 +292,7 @@ Proof.
   assert (Hv : ints_in_kind v = true).
   { rewrite forallb_forall in Hk. clear - E Hk. induction m as [|[k x] r IH]; cbn [lookup] in E; [discriminate|].
     destruct (label_eqb k (ilabel l)); [inversion E; subst; apply (Hk (k, v)); now left|]. apply IH; [|exact E]. intros y Hy. apply Hk. now right. }
-  destruct v; cbn [normv]; repeat split; try reflexivity; try (unfold nint; destruct (z <? 0); reflexivity).
+  destruct v; try match goal with o : option (list Z) |- _ => destruct o end;
+    cbn [normv]; repeat split; try reflexivity; try (unfold nint; destruct (z <? 0); reflexivity).
   apply to_int_normv. exact Hv.
 Qed.
